@@ -78,3 +78,27 @@ c("parse_symbolic_exponent", "C20", U,
 c("parse_nonfinite_number", "C20", U,
   "        if unit_expr is sympy_one:\n            return (1.0, sympy_one)\n        return (float(unit_expr), sympy_one)",
   "        if unit_expr is sympy_one:\n            return (1.0, sympy_one)\n        if unit_expr.is_finite is not True:\n            raise UnitParseError(f\"Invalid unit expression '{unit_expr}'.\")\n        return (float(unit_expr), sympy_one)")
+
+# ---- C11: keep unyt's dimension singletons through pickle / deepcopy / Unit.copy
+c("dims_singletons_helper", "C11", R,
+  "def _correct_old_unit_registry(data, sympify=False):\n    lut = {}\n",
+  "def _use_dimension_singletons(lut):\n    \"\"\"Rebuild the dimensions of every entry from unyt's own dimension symbols.\n\n    Unpickled sympy symbols are equal but not identical to the module-level\n    singletons, and a lot of unyt compares dimensions with ``is``.\n    \"\"\"\n    by_name = {\n        d.name: d for d in unyt_dims.base_dimensions if getattr(d, \"is_Symbol\", False)\n    }\n    memo = {}\n    for key, entry in lut.items():\n        dims = entry[1]\n        if id(dims) not in memo:\n            repl = {\n                s: by_name[s.name]\n                for s in getattr(dims, \"free_symbols\", ())\n                if s.name in by_name and s is not by_name[s.name]\n            }\n            memo[id(dims)] = (dims, dims.xreplace(repl) if repl else dims)\n        new_dims = memo[id(dims)][1]\n        if new_dims is not dims:\n            lut[key] = (entry[0], new_dims) + tuple(entry[2:])\n    return lut\n\n\ndef _correct_old_unit_registry(data, sympify=False):\n    lut = {}\n")
+c("dims_singletons_apply", "C11", R,
+  "    for k in default_unit_symbol_lut:\n        if k not in lut:\n            lut[k] = default_unit_symbol_lut[k]\n    return lut",
+  "    for k in default_unit_symbol_lut:\n        if k not in lut:\n            lut[k] = default_unit_symbol_lut[k]\n    return _use_dimension_singletons(lut)")
+c("registry_deepcopy_entries", "C11", R,
+  "        lut = copy.deepcopy(self.lut)\n        return type(self)(lut=lut)",
+  "        # entries are immutable tuples; copying the sympy dimension objects\n        # would break identity with unyt's dimension singletons\n        lut = dict(self.lut)\n        return type(self)(lut=lut)")
+c("unit_copy_dims", "C11", U,
+  "        dimensions = copy.deepcopy(self.dimensions)",
+  "        dimensions = self.dimensions")
+
+# ---- C08/C18: refuse offset-temperature multiply/divide before the ufunc has written anything
+c("temp_guard_before_eval", "C08,C18", A,
+  "            # get the unit of the result\n            mul, unit = unit_operator(u0, u1)\n            # actually evaluate the ufunc\n",
+  "            if unit_operator in (_multiply_units, _divide_units) and (\n                u0.base_offset\n                and u0.dimensions is temperature\n                or u1.base_offset\n                and u1.dimensions is temperature\n            ):\n                # refuse before evaluating: with out= (or an in-place operator)\n                # the ufunc would already have overwritten its target\n                raise InvalidUnitOperation(\n                    \"Quantities with units of Fahrenheit or Celsius \"\n                    \"cannot be multiplied, divided, subtracted or added.\"\n                )\n            # get the unit of the result\n            mul, unit = unit_operator(u0, u1)\n            # actually evaluate the ufunc\n")
+
+# ---- C04: floor division of commensurable operands must floor the *converted* quotient
+c("floor_divide_rescale", "C04", A,
+  "            # get the unit of the result\n            mul, unit = unit_operator(u0, u1)\n            # actually evaluate the ufunc\n",
+  "            if (\n                ufunc is floor_divide\n                and u0 is not u1\n                and u0 != u1\n                and not u0.is_dimensionless\n                and u0.same_dimensions_as(u1)\n            ):\n                # floor(a/b) is not scale covariant: bring b to a's units first\n                conv, _ = u1.get_conversion_factor(u0, inp1.dtype)\n                inp1 = np.asarray(inp1, dtype=np.result_type(inp1.dtype, np.float16)) * conv\n                u1 = u0\n            # get the unit of the result\n            mul, unit = unit_operator(u0, u1)\n            # actually evaluate the ufunc\n")
